@@ -27,6 +27,7 @@ TYPE_SETS = {
     'memory': [Wall, Floor, Exit, Beacon],
     'doors-only': [Floor, Door],
     'all-representable': [Floor, Wall, Exit, Door, Key, MovingObstacle, Telepod, Beacon],
+    'repeated-entry': [Floor, Wall, Floor, Door, Key],   # a declaration that lists a type twice (concatenated lists) is the same space
 }
 COLOR_SETS = {
     'none': [Color.NONE],
@@ -50,7 +51,7 @@ def make_space(kind, tname, cname, shape):
 
 def member_types(space, kind):
     extra = [NoneGridObject] + ([Hidden] if kind == 'observation' else [])
-    return list(space.object_types) + extra
+    return list(dict.fromkeys(list(space.object_types) + extra))
 
 
 def uses_color(T):
